@@ -168,6 +168,12 @@ def check_frame(root, spec, kind, i, variant, base=None):
     if fails:
         return fails, False, v
     live = (base['txns'], base['sections'], base['html']['rc']) != (v['txns'], v['sections'], v['html']['rc'])
+    if kind == 'currency_format':
+        live = (base['html']['data'] or {}).get('currencyFormat') != (v['html']['data'] or {}).get('currencyFormat')
+        a = {k: x for k, x in canon(base['html']['data'] or {}).items() if k != 'currencyFormat'}
+        b = {k: x for k, x in canon(v['html']['data'] or {}).items() if k != 'currencyFormat'}
+        if a != b:
+            fails.append({'law': 'frame/currency_format', 'detail': 'changing the currency format changed figures: ' + str(first_diff(a, b))})
     if kind in SOURCE_KINDS:
         name = spec['sources'][i]['name']
         shared = {t[4] for t in base['txns'] + v['txns'] if t[0] == name}
@@ -268,7 +274,7 @@ def plan_toggles(spec, rnd, k):
     for i in ns:
         for kind in SOURCE_KINDS:
             cands.append((kind, i))
-    for kind in ('rule_mode', 'rules', 'views'):
+    for kind in ('rule_mode', 'rules', 'views', 'currency_format'):
         cands.append((kind, None))
     if spec['rules']['kind'] == 'rules':
         cands.append(('transforms', None))
@@ -460,7 +466,7 @@ def main(tier):
 
     B.clean_work(PROP)
     rnd = random.Random(run.seed * 7919 + 11)
-    n = 120 if tier == "quick" else 1500
+    n = 100 if tier == "quick" else 1500
     per = 3 if tier == 'quick' else 5
     jobs = []
     plan_toggles.count = collections.Counter()
